@@ -472,7 +472,7 @@ class Window:
                         rec["verdict"] = "ok"
                         rec["detail"] = "length is the rest of the window from there"
                     elif same:
-                        rec["verdict"] = "short"
+                        rec["verdict"] = "unknown"
                         rec["detail"] = "the remaining count may have wrapped at this point"
                     else:
                         rec["detail"] = "length and pointer are not related"
@@ -490,7 +490,9 @@ class Window:
                 self.open_reasons.append("%s: access size unknown at line %d" % (f.name, ins.line))
                 return
             ok = sl is not None and sl >= size and lo is not None and lo >= 0
-            rec["verdict"] = "ok" if ok else "short"
+            # "short" is a finding only when the analysis KNOWS how far the position may have got (and that is too far); a position it
+            # has lost track of - a cursor advanced round a loop that some other counter bounds - is not judged
+            rec["verdict"] = "ok" if ok else ("short" if sl is not None and lo is not None else "unknown")
             rec["need"], rec["have"], rec["lo"] = size, sl, lo
             if not ok:
                 rec["detail"] = "%d byte(s) at an offset where only %s are known to be inside the window%s" % (
@@ -548,11 +550,11 @@ class Window:
                             if lc is not None and lc[0] == "R" and lc[1] == c[1] and lc[2] >= c[2]:
                                 s2, _ = self.bounds_at(i.block, ("P", lc[1], lc[2]))
                                 okp = s2 is not None and s2 >= 0 and lo is not None and lo >= 0
-                                rec["verdict"] = "ok" if okp else "short"
+                                rec["verdict"] = "ok" if okp else "unknown"
                                 rec["detail"] = "handed to %s as a sub-window" % g.name if okp else "the length handed to %s may have wrapped" % g.name
                             elif lc is not None and lc[0] == "I" and lc[1] == 0:
                                 okp = sl is not None and sl >= lc[2] and lo is not None and lo >= 0
-                                rec["verdict"] = "ok" if okp else "short"
+                                rec["verdict"] = "ok" if okp else ("short" if sl is not None and lo is not None else "unknown")
                                 rec["need"], rec["have"] = lc[2], sl
                                 rec["detail"] = "%d bytes handed to %s" % (lc[2], g.name)
                             else:
@@ -567,7 +569,7 @@ class Window:
                             handled.add(k)
                             sl, lo = self.bounds_at(i.block, c)
                             okp = nbytes == 0 or (sl is not None and sl >= nbytes and lo is not None and lo >= 0)
-                            rec["verdict"] = "ok" if okp else "short"
+                            rec["verdict"] = "ok" if okp else ("short" if sl is not None and lo is not None else "unknown")
                             rec["need"], rec["have"] = nbytes, sl
                             rec["detail"] = "%s touches %d byte(s) from there" % (g.name, nbytes) + ("" if okp else "; only %s known to be inside the window" % ("none" if sl is None else sl))
                             continue
@@ -587,23 +589,6 @@ class Window:
                         self.open_reasons.append("%s: merge of window quantities at line %d not modelled" % (f.name, i.line))
                 elif self.cls(i) is None:
                     self.open_reasons.append("%s: %s of a window quantity at line %d not modelled" % (f.name, i.op, i.line))
-        # only classes an access address is built from matter (a code point counter that merely starts at 0 is not a cursor)
-        used = {a["cls"][1] for a in out if a["cls"] is not None}
-        grew = True
-        while grew:
-            grew = False
-            for g, members in self.groups.items():
-                if g not in used:
-                    continue
-                for phi in members:
-                    for v, _pb in phi.incoming:
-                        c = self.cls(v)
-                        if c is not None and c[1] not in used:
-                            used.add(c[1])
-                            grew = True
-        for g in sorted(self.unbounded & used, key=str):
-            self.open_reasons.append("%s: a cursor or index advances round the loop at %s without a test on it that the analysis relates to the window" % (
-                f.name, self.groups[g][0].block.name))
         return out
 
     def closed(self):
